@@ -303,3 +303,112 @@ def tie_lint(run: common.Run, drv: common.Driver, rng: random.Random, n: int) ->
         run.count("tie_lint_enum0")
         if ans.get("ok") != real:
             _disagree(run, dict(what="enum-contains-0 rule vs C20.warnsEnumNoZero", request=q, observed_impl=real, model_answer=ans))
+
+
+# ------------------------------------------------------------------ C20: lint is advisory, on odd but valid schemas
+ODD_VALID = {
+    "empty_enum": "proto odd\nenum E : uint3 {}\nmessage M { uint3 x = 1 }\n",
+    "enum_only_comments": "proto odd\nenum E : uint3 {\n    // nothing yet\n\n}\nmessage M { bool b = 1 }\n",
+    "empty_message": "proto odd\nmessage M {}\n",
+    "nested_empty": "proto odd\nmessage Outer {\n    message Inner {}\n    enum Kind : uint1 {}\n    Inner i = 1\n}\n",
+    "lower_names": "proto odd\nconst lower = 1\ntype alias_t = uint3\nenum color : uint2 { red = 1 }\nmessage msg { uint3 Field = 1 }\n",
+    "no_final_newline": "proto odd\nmessage M { uint3 x = 1 }",
+    "many_warnings": "proto odd\n" + "".join(f"const lower_{i} = {i}\n" for i in range(256)),  # exactly 256 warnings: an exit status that is a warning COUNT wraps to 0
+}
+
+
+def lint_advisory_fixed(run: common.Run) -> None:
+    """the same schema with and without -q: same exit status, byte-identical files (the linter only warns); check-only
+    mode exits non-zero exactly when there is a warning — also when there are 256 of them"""
+    import subprocess
+
+    env = {**os.environ, "PYTHONPATH": f"{common.REPO}/compiler:{common.REPO}/lib/py", "PYTHONDONTWRITEBYTECODE": "1"}
+    with R.Scratch() as sc:
+        for name, text in ODD_VALID.items():
+            d = sc.path(name)
+            os.makedirs(d)
+            open(os.path.join(d, "odd.bitproto"), "w").write(text)
+            res = {}
+            for q in (False, True):
+                for lang in ("c", "py"):
+                    out = os.path.join(d, f"out_{lang}_{int(q)}")
+                    os.makedirs(out)
+                    p = subprocess.run([common.PY, "-m", "bitproto._main", lang, "odd.bitproto", out] + (["-q"] if q else []), cwd=d,
+                                       capture_output=True, text=True, env=env)
+                    files = {f: open(os.path.join(out, f)).read() for f in sorted(os.listdir(out))}
+                    res[(lang, q)] = (p.returncode, files, p.stderr)
+            pc = subprocess.run([common.PY, "-m", "bitproto._main", "-c", "odd.bitproto"], cwd=d, capture_output=True, text=True, env=env)
+            nwarn = pc.stderr.count("warning:")
+            run.evaluated()
+            run.count("lint_advisory_fixed")
+            rep = {"input": {"files": {"odd.bitproto": text}}, "case": name}
+            for lang in ("c", "py"):
+                a, b = res[(lang, False)], res[(lang, True)]
+                if a[0] != b[0] or a[1] != b[1] or "Traceback" in a[2]:
+                    run.violation(dict(rep, kind="impl-vs-spec", language=lang,
+                                       observed_impl={"with_lint": {"exit": a[0], "files": sorted(a[1]), "stderr": a[2][-300:]},
+                                                      "with_-q": {"exit": b[0], "files": sorted(b[1])}},
+                                       expected_by_spec="lint never changes acceptance or output: same exit status and byte-identical files"))
+            if (pc.returncode != 0) != (nwarn > 0) or "Traceback" in pc.stderr:
+                run.violation(dict(rep, kind="impl-vs-spec", observed_impl={"check_only_exit": pc.returncode, "warnings": nwarn, "stderr": pc.stderr[-300:]},
+                                   expected_by_spec="check-only mode exits non-zero exactly when there is an error or a warning"))
+
+
+# ------------------------------------------------------------------ C16: JSON as text
+def _jt(t: Any, v: Any) -> Any:
+    """abstract value -> order-preserving wire form of JsonText.JT (members in field-number order, keyed by NAME)"""
+    if isinstance(t, G.TBool):
+        return bool(v)
+    if isinstance(t, G.TArray):
+        return [_jt(t.elem, e) for e in v]
+    if isinstance(t, G.TRef):
+        d = t.d
+        if isinstance(d, G.AliasDef):
+            return _jt(d.type, v)
+        if isinstance(d, G.MsgDef):
+            return {"o": [[f.name, _jt(f.type, v[f.num])] for f in sorted(d.fields, key=lambda f: f.num)]}
+    return int(v)
+
+
+def tie_json_text(run: common.Run, drv: common.Driver, rng: random.Random, n: int, n_c: int) -> None:
+    """JsonText.renderWith vs the TEXT written by the real C `Json<Msg>()` (compact) and by Python `to_json()` (json.dumps'
+    default separators) — exact string equality"""
+    from . import creal
+
+    reqs, reals, ctx = [], [], []
+    with R.Scratch() as sc:
+        for k in range(n):
+            g = G.SchemaGen(rng, G.GenOpts(max_depth=2, max_fields=5, max_bits=900, big_prob=0.0, enum_zero_first=True))
+            s = g.schema()
+            text = G.schema_text(s)
+            base = f"jt{k}_{rng.randrange(1 << 30)}"
+            try:
+                path = sc.write(f"{base}.bitproto", text)
+                proto = R.parse_file(path)
+                mod = R.load_py_module(R.render_strings(proto, "py")[".py"], "tiejsontext")
+                cm = creal.CModule(sc, s, text, base) if k < n_c else None
+            except Exception as ex:
+                run.count("tie_json_text_skipped:" + type(ex).__name__)
+                continue
+            try:
+                for m in s.messages():
+                    v = G.rand_msg_value(rng, m)
+                    val = _jt(G.TRef(m), v)
+                    try:
+                        py_text = R.py_build(mod, m, v).to_json()
+                    except Exception as ex:
+                        run.count("tie_json_text_real_exc:" + type(ex).__name__)
+                        continue
+                    reqs.append({"op": "jsontext.render", "py": True, "value": val})
+                    reals.append(py_text)
+                    ctx.append({"schema": text, "message": G.py_name(m), "lang": "py"})
+                    if cm is not None:
+                        reqs.append({"op": "jsontext.render", "value": val})
+                        reals.append(cm.json(m, v))
+                        ctx.append({"schema": text, "message": G.py_name(m), "lang": "c"})
+            finally:
+                R.unload(mod)
+    for q, real, c, ans in zip(reqs, reals, ctx, drv.batch(reqs)):
+        run.count("tie_json_text:" + c["lang"])
+        if ans.get("ok") != real:
+            _disagree(run, dict(c, what="JsonText.renderWith vs the real JSON text", observed_impl=real[:400], model_answer=str(ans)[:400]))
